@@ -85,6 +85,7 @@ func (m *CPU) Run(app risc.Application) (int, error) {
 	cycle := 0
 	for {
 		cycle++
+		m.ctx.VerifTick(0, cycle)
 		log.Info(m.ctx, "Cycle %d", cycle)
 		m.decodeBus.Connect(cycle)
 		m.controlBus.Connect(cycle)
@@ -132,6 +133,7 @@ func (m *CPU) Run(app risc.Application) (int, error) {
 			cycle++
 			m.writeBus.Connect(cycle)
 			for !m.areWriteUnitsEmpty() || !m.writeBus.IsEmpty() {
+				m.ctx.VerifTick(1, cycle)
 				for _, wu := range m.writeUnits {
 					wu.cycle(m.ctx, -1)
 				}
@@ -146,11 +148,13 @@ func (m *CPU) Run(app risc.Application) (int, error) {
 			for _, wu := range m.writeUnits {
 				for !wu.isEmpty() || !m.writeBus.IsEmpty() {
 					cycle++
+					m.ctx.VerifTick(3, cycle)
 					wu.cycle(m.ctx, from)
 				}
 			}
 
 			log.Info(m.ctx, "\t️⚠️ Flush to %d", pc/4)
+			m.ctx.VerifEvent(risc.VerifKindFlush, from, pc, 0)
 			m.flush(pc)
 			cycle += latency.Flush
 			log.Info(m.ctx, "\tRegisters: %v", m.ctx.Registers)
